@@ -242,7 +242,7 @@ func c02Session(lines []string, tracking bool) *c02Res {
 		r.Wire = s.WireSince(n0)
 		r.NWrote = len(r.Wire)
 		for _, w := range r.Wire {
-			if w == c02Pong {
+			if NormLine(w) == c02Pong {
 				r.Pong++
 			}
 		}
@@ -437,7 +437,7 @@ func c02Class(line string, tracking bool) string {
 	sb.WriteString(" logs=" + strings.Join(logs, ","))
 	var verbs []string
 	for _, w := range r.Wire {
-		if w == c02Pong {
+		if NormLine(w) == c02Pong {
 			continue
 		}
 		if i := strings.IndexByte(w, ' '); i > 0 {
